@@ -95,6 +95,8 @@ type world struct {
 	allDocs  []cdoc              // including old versions of changed files (shard-level corpus)
 	believed map[uint32]bool     // tombstone flag according to the operations that reported success
 	deltaID  uint32
+	part     map[string]int // repo\x00file -> which simple shard of its repository the document was built into
+	splitID  uint32         // the repository that was built as several shards before the merge (0 = none)
 }
 
 func mkContent(r *gen.Rand, name string) string {
@@ -113,11 +115,17 @@ func mkContent(r *gen.Rand, name string) string {
 }
 
 func buildWorld(root string, r *gen.Rand, n int) *world {
-	w := &world{dir: filepath.Join(root, fmt.Sprintf("world%d", n)), believed: map[uint32]bool{}, hiddenBy: map[string][]string{}}
+	w := &world{dir: filepath.Join(root, fmt.Sprintf("world%d", n)), believed: map[uint32]bool{}, hiddenBy: map[string][]string{}, part: map[string]int{}}
 	stage := w.dir + ".stage"
 	must(os.MkdirAll(w.dir, 0o755))
 	must(os.MkdirAll(stage, 0o755))
 	k := 3 + r.Intn(3)
+	// in 3 of 5 worlds (always in world 0) one repository is large enough to be built as two or three simple shards:
+	// after the merge the compound shard holds that repository ID in several entries
+	split := -1
+	if n == 0 || r.Chance(3, 5) {
+		split = r.Intn(k)
+	}
 	for i := 0; i < k; i++ {
 		rp := crepo{name: fmt.Sprintf("org/r%d", i+1), id: uint32(i + 1)}
 		if r.Chance(1, 4) {
@@ -125,7 +133,11 @@ func buildWorld(root string, r *gen.Rand, n int) *world {
 		}
 		w.repos = append(w.repos, rp)
 		var docs []f1util.Doc
-		for j := 0; j < 2+r.Intn(3); j++ {
+		nd := 2 + r.Intn(3)
+		if i == split {
+			nd = 4 + r.Intn(2)
+		}
+		for j := 0; j < nd; j++ {
 			name := fmt.Sprintf("%s/f%d.%s", gen.Pick(r, []string{"src", "lib", "cmd"}), j, gen.Pick(r, []string{"go", "txt"}))
 			d := cdoc{repo: rp.name, name: name, content: mkContent(r, name)}
 			if j == 0 {
@@ -135,7 +147,17 @@ func buildWorld(root string, r *gen.Rand, n int) *world {
 			w.allDocs = append(w.allDocs, d)
 			docs = append(docs, f1util.Doc{Name: d.name, Content: d.content})
 		}
-		must(f1util.RunBuild(f1util.BuildSpec{Dir: stage, RepoName: rp.name, RepoID: rp.id, Gen: 1, ShardMax: 1 << 20, Docs: docs}))
+		shardMax := 1 << 20
+		if i == split {
+			shardMax = len(docs[0].Name) + len(docs[0].Content) + len(docs[1].Name) + len(docs[1].Content) - 1
+			w.splitID = rp.id
+		}
+		for pi, part := range f1util.PredictShards(docs, shardMax, false) {
+			for _, d := range part {
+				w.part[rp.name+"\x00"+d.Name] = pi
+			}
+		}
+		must(f1util.RunBuild(f1util.BuildSpec{Dir: stage, RepoName: rp.name, RepoID: rp.id, Gen: 1, ShardMax: shardMax, Docs: docs}))
 	}
 	// merge the simple shards into one compound shard
 	var files []index.IndexFile
@@ -409,14 +431,21 @@ func (w *world) shardView(path string, scratch string, docOrderCache map[string]
 		docOrderCache[path] = docs
 	}
 	sv.docs = docs
+	// documents are contiguous per repository entry; a repository built as several shards has one entry per shard
+	ri, prev := -1, ""
 	for _, d := range docs {
-		ri := -1
-		for i, r := range repos {
-			if r.Name == d.repo {
-				ri = i
-			}
+		key := fmt.Sprintf("%s\x00%d", d.repo, w.part[d.repo+"\x00"+d.name])
+		if key != prev {
+			ri++
+			prev = key
+		}
+		if ri >= len(repos) || repos[ri].Name != d.repo {
+			panic(fmt.Sprintf("shard %s: document %s:%s does not line up with repository entry %d", path, d.repo, d.name, ri))
 		}
 		sv.ridx = append(sv.ridx, ri)
+	}
+	if ri+1 != len(repos) {
+		panic(fmt.Sprintf("shard %s: %d repository entries, %d document groups", path, len(repos), ri+1))
 	}
 	return sv
 }
@@ -540,6 +569,81 @@ func (rn *runner) queryShard(w *world, sv *shardView, s zoekt.Searcher, q *qn) {
 		Nontrivial: anyTomb && len(matching) > 0,
 		Detail:     gen.Detail(map[string]any{"query": q.String(), "shard": filepath.Base(sv.path)}),
 	})
+	// the same search with a per-repository limit (ShardRepoMaxMatchCount): the loop skips the rest of a repository
+	// once the limit is reached and must still apply every guard to the document it reaches next
+	weight := map[int]int{}
+	total := 0
+	for _, fm := range res.Files {
+		for i, d := range sv.docs {
+			if d.repo == fm.Repository && d.name == fm.FileName {
+				weight[i] = len(fm.LineMatches)
+				for _, cm := range fm.ChunkMatches {
+					weight[i] += len(cm.Ranges)
+				}
+				total += weight[i]
+			}
+		}
+	}
+	if total > 0 {
+		var ws []string
+		for _, i := range matching {
+			wt, ok := weight[i]
+			if !ok {
+				wt = 1 // hidden document: never consulted
+			}
+			ws = append(ws, fmt.Sprintf("%d:%d", i, wt))
+		}
+		for _, limit := range []int{1, 2 + rn.r.Intn(2)} {
+			lres, err := s.Search(ctx, zq, &zoekt.SearchOptions{ShardRepoMaxMatchCount: limit})
+			must(err)
+			var lhits []int
+			for _, fm := range lres.Files {
+				found := 9999
+				for i, d := range sv.docs {
+					if d.repo == fm.Repository && d.name == fm.FileName && hitsFree(lhits, i) {
+						found = i
+						break
+					}
+				}
+				lhits = append(lhits, found)
+			}
+			sort.Ints(lhits)
+			// layout counter: an alive entry that exceeds the limit, directly followed by a tombstoned entry whose first
+			// document matches
+			layout := false
+			for e := 0; e+1 < len(sv.repos); e++ {
+				if sv.repos[e].Tombstone || !sv.repos[e+1].Tombstone {
+					continue
+				}
+				nm, firstNext := 0, -1
+				for i := range sv.docs {
+					if sv.ridx[i] == e {
+						if _, ok := weight[i]; ok {
+							nm++
+						}
+					}
+					if sv.ridx[i] == e+1 && firstNext < 0 {
+						firstNext = i
+					}
+				}
+				for _, m := range matching {
+					if m == firstNext && nm >= 2 && limit == 1 {
+						layout = true
+					}
+				}
+			}
+			if layout {
+				rn.w.Count("limited-search:skip-lands-on-tombstoned-repository", 1)
+			}
+			rn.w.Emit(gen.Case{
+				In:         fmt.Sprintf("searchlim %s %s %s %d", reposF, docsF, strings.Join(ws, ","), limit),
+				Impl:       "hits=" + natList(lhits),
+				Class:      "searchlim:" + q.kind,
+				Nontrivial: anyTomb && len(lhits) < len(hits),
+				Detail:     gen.Detail(map[string]any{"query": q.String(), "shard": filepath.Base(sv.path), "limit": limit}),
+			})
+		}
+	}
 	// List
 	qf := ""
 	switch {
@@ -560,13 +664,20 @@ func (rn *runner) queryShard(w *world, sv *shardView, s zoekt.Searcher, q *qn) {
 	}
 	rl, err := s.List(ctx, zq, nil)
 	must(err)
+	// entries come in shard order; an ID may occur in several entries
 	var listed []int
+	next := 0
 	for _, e := range rl.Repos {
-		for i, rp := range sv.repos {
-			if rp.ID == e.Repository.ID {
-				listed = append(listed, i)
-			}
+		j := next
+		for j < len(sv.repos) && (sv.repos[j].ID != e.Repository.ID || sv.repos[j].Tombstone != e.Repository.Tombstone) {
+			j++
 		}
+		if j == len(sv.repos) {
+			listed = append(listed, 9999) // an entry the shard should not have (or out of order)
+			continue
+		}
+		listed = append(listed, j)
+		next = j + 1
 	}
 	sort.Ints(listed)
 	rn.w.Emit(gen.Case{
@@ -642,6 +753,31 @@ func (rn *runner) e2e(w *world, ss zoekt.Streamer, q *qn, after string) {
 				verdict, key = "search returns an unexpected document: "+strings.ReplaceAll(k, "\x00", "|")[:40], "e2e:results-differ"
 			}
 		}
+	}
+	// the same query with a per-repository limit through the directory searcher: never anything hidden, never
+	// anything that the unlimited search would not return
+	for _, limit := range []int{1, 2} {
+		lres, err := ss.Search(ctx, zq, &zoekt.SearchOptions{Whole: true, ShardRepoMaxMatchCount: limit})
+		must(err)
+		lv, lk := "", ""
+		for _, fm := range lres.Files {
+			if tomb(fm.Repository) {
+				lv, lk = fmt.Sprintf("search with ShardRepoMaxMatchCount=%d returned %s:%s of a tombstoned repository", limit, fm.Repository, fm.FileName), "e2e:tombstoned-repository-in-limited-results"
+			} else if !want[fm.Repository+"\x00"+fm.FileName+"\x00"+string(fm.Content)] {
+				lv, lk = fmt.Sprintf("search with ShardRepoMaxMatchCount=%d returned unexpected %s:%s", limit, fm.Repository, fm.FileName), "e2e:limited-results-differ"
+			}
+		}
+		gotRepo := map[string]bool{}
+		for _, fm := range lres.Files {
+			gotRepo[fm.Repository] = true
+		}
+		for rp := range wantRepos {
+			if lv == "" && !gotRepo[rp] {
+				lv, lk = fmt.Sprintf("search with ShardRepoMaxMatchCount=%d lost repository %s", limit, rp), "e2e:limited-results-differ"
+			}
+		}
+		rn.w.Emit(gen.Case{Go: lv, Key: lk, Class: "e2e-search-limited", Nontrivial: len(lres.Files) < len(res.Files),
+			Detail: gen.Detail(map[string]any{"query": q.String(), "after": after, "limit": limit})})
 	}
 	urlLeak := ""
 	for name := range res.RepoURLs {
@@ -721,7 +857,9 @@ func (rn *runner) runWorld(n int, nOps int, nQueries int) {
 		}
 		ds, err := search.NewDirectorySearcher(w.dir)
 		must(err)
-		qs := append([]*qn(nil), extra...)
+		// "file " occurs once in every document: with a limit of one match per repository every repository is cut short
+		// and the loop lands on the first document of the next one
+		qs := append([]*qn{{kind: "sub", pat: "file "}}, extra...)
 		for i := 0; i < nQueries; i++ {
 			qs = append(qs, genQuery(r, w, 2))
 		}
